@@ -98,6 +98,9 @@ def draw_scenario(seed, i, kind=None, real_writers=False):
         n = rng.randint(0, 6)
         p["chunks"] = [rng.choice([1, 100, 4096, 16384, 16384, 70000]) for _ in range(n)]
         p["mode"] = rng.choice(["ok", "ok", "429-then-ok", "read-error", "429-forever"])
+        # the response's headers: Content-Length counts the bytes on the wire (of the compressed body when
+        # the server applies Content-Encoding: gzip - usual for SVG), or is absent (chunked transfer)
+        p["encoding"] = rng.choice([None, None, "gzip", "gzip", "chunked"])
         p["prev_size"] = rng.randrange(1, 5000)
         # the scratch file of an earlier transfer that broke in mid-body is still lying around
         p["leftover"] = rng.randrange(1, 40000) if rng.random() < 0.35 else 0
@@ -360,6 +363,9 @@ class Scenario:
         self.published["image"] = os.path.join(self.out, "images", "Foo.png")
         self.prev["image"] = _blob(self.crng, self.p["prev_size"]) if self.p["prev"] else None
         self.body_chunks = [_blob(self.crng, n) for n in self.p["chunks"]]
+        if self.p.get("encoding") == "gzip":  # a body that compresses well (mark-up)
+            pat = b"<path d='M0 0L1 1' style='fill:none'/>\n"
+            self.body_chunks = [(pat * (n // len(pat) + 1))[:n] for n in self.p["chunks"]]
         if self.body_chunks and self.p["index"] % 3 == 0:
             head = b"\xef\xbb\xbf<svg xmlns='http://www.w3.org/2000/svg'>"  # XML with a byte-order mark
             self.body_chunks[0] = (head + self.body_chunks[0][len(head):]) if len(self.body_chunks[0]) > len(head) else head
@@ -369,11 +375,20 @@ class Scenario:
         import httpx
         from mwlib.network import fetch
         chunks, mode = self.body_chunks, self.p["mode"]
+        encoding = self.p.get("encoding")
         calls = [0]
 
         class Resp:
             def __init__(self, status):
                 self.status_code = status
+                h = {"content-type": "image/svg+xml" if status < 400 else "text/html"}
+                if status < 400 and encoding == "gzip":
+                    import gzip
+                    h["content-encoding"] = "gzip"
+                    h["content-length"] = str(len(gzip.compress(b"".join(chunks), mtime=0)))
+                elif status < 400 and encoding != "chunked":
+                    h["content-length"] = str(sum(len(c) for c in chunks))
+                self.headers = httpx.Headers(h)
 
             def raise_for_status(self):
                 if self.status_code >= 400:
